@@ -125,3 +125,39 @@ Proof.
       apply filter_In. split; [exact Hx|]. apply negb_true_iff, N.eqb_neq. exact NT.
   - rewrite (gc_new_revision s t retain inuse ci); auto. apply in_or_app. left. exact Hx.
 Qed.
+
+(* ------------------------------------------------------------------------------------------------ C12: source independence *)
+
+(* the same operation with the other source (store download vs local file) *)
+Definition with_source (b : bool) (o : op) : op :=
+  mkOp (okind o) (orev o) (odefault o) (ochan o) (odev o) (ojail o) (oclassic o) (otry o) (oignore o) (ocohort o)
+       (onotblocked o) (ohookcfg o) (onow o) b.
+
+(* the discard-snap tasks of a change do not depend on where the snap file comes from *)
+Theorem gc_independent_of_source : forall o s retain inuse b,
+  filter is_discard (tasks_for (with_source b o) s retain inuse) = filter is_discard (tasks_for o s retain inuse).
+Proof.
+  intros o s retain inuse b. unfold tasks_for. change (okind (with_source b o)) with (okind o).
+  assert (I : filter is_discard (install_tasks (with_source b o) s retain inuse)
+              = filter is_discard (install_tasks o s retain inuse)).
+  { rewrite <- (filter_discard_ess (install_tasks (with_source b o) s retain inuse)).
+    rewrite <- (filter_discard_ess (install_tasks o s retain inuse)).
+    rewrite !install_tasks_ess. reflexivity. }
+  destruct (okind o) eqn:K; try exact I; try reflexivity;
+    unfold remove_tasks; change (okind (with_source b o)) with (okind o); rewrite K; reflexivity.
+Qed.
+
+(* ... for a refresh they are exactly the model's garbage-collection list, which has no source input at all *)
+Theorem refresh_discards_are_gc : forall o s retain inuse,
+  okind o = ORefresh -> installed s = true ->
+  map snd (filter is_discard (tasks_for o s retain inuse)) = gc_revs s (orev o) retain inuse.
+Proof.
+  intros o s retain inuse K INST. unfold tasks_for. rewrite K.
+  assert (NR : is_revert o = false) by (unfold is_revert; rewrite K; reflexivity).
+  rewrite <- filter_discard_ess, install_tasks_ess, INST, NR. cbn [negb andb].
+  rewrite !filter_app, !map_app.
+  assert (E : filter is_discard (ess_pre o s) = []).
+  { unfold ess_pre. rewrite INST. destruct (mem (orev o) (seq s)); reflexivity. }
+  rewrite E. pose proof (discards_of_map (gc_revs s (orev o) retain inuse)) as DM. unfold task in *. rewrite DM.
+  cbn. apply app_nil_r.
+Qed.
